@@ -1,10 +1,10 @@
 package rules
 
 import (
-	"strings"
 	"fmt"
 	"go/token"
 	"go/types"
+	"strings"
 
 	"golang.org/x/tools/go/ssa"
 
